@@ -16,7 +16,6 @@ if ROOT not in sys.path:
 
 from contracts import dsl                      # noqa: E402
 from pyvc import front, solve, verify, canary, refute   # noqa: E402
-from pyvc.engine import Ctx                    # noqa: E402
 from pyvc.devrun import load_contracts         # noqa: E402
 
 VENV_PY = os.environ.get("VERIF_VENV_PY", "/venv/bin/python")
@@ -73,6 +72,22 @@ def write_replay(prop, rec):
     return os.path.relpath(path, ROOT)
 
 
+def obligation_summary(obls, results):
+    """per (function, kind): count, discharged, slowest"""
+    agg = {}
+    for ob, r in zip(obls, results):
+        if ob.expect != "unsat":
+            continue
+        a = agg.setdefault((ob.fn, ob.kind), dict(function=ob.fn, kind=ob.kind, count=0, discharged=0, max_seconds=0.0,
+                                                  backends={}))
+        a["count"] += 1
+        if r["ok"]:
+            a["discharged"] += 1
+            a["backends"][r["backend"]] = a["backends"].get(r["backend"], 0) + 1
+        a["max_seconds"] = round(max(a["max_seconds"], r["seconds"]), 3)
+    return sorted(agg.values(), key=lambda a: (a["function"], a["kind"]))
+
+
 def run_property(prop, tier, seed):
     t0 = time.time()
     load_contracts()
@@ -80,15 +95,18 @@ def run_property(prop, tier, seed):
     trusted = [k for k, c in dsl.CONTRACTS.items() if prop in c.props and c.trusted]
     lemmas = [l for l, lm in dsl.LEMMAS.items() if prop in lm.props]
     timeout_ms = 10000 if tier == "quick" else 60000
-    ctx = Ctx(prop)
-    infos = []
-    for k in keys:
-        infos.append(verify.verify_function(ctx, k))
-    for l in lemmas:
-        infos.append(verify.verify_lemma(ctx, l))
+    from pyvc import par
+    infos, obls, agg = par.symexec(keys, [l for l in lemmas])
     t_sym = time.time() - t0
-    results = solve.discharge(ctx, ctx.obls, timeout_ms=timeout_ms)
+    results = par.discharge(obls, timeout_ms=timeout_ms)
     t_solve = time.time() - t0 - t_sym
+
+    class _C:
+        pass
+    ctx = _C()
+    ctx.obls = obls
+    ctx.used_lib, ctx.used_contracts, ctx.used_inline, ctx.used_trusted = (
+        agg["used_lib"], agg["used_contracts"], agg["used_inline"], agg["used_trusted"])
     known = load_known()
     lines = []
     violations = []       # dicts: function, clause/obligation, replay path, reproduced
@@ -241,8 +259,10 @@ def run_property(prop, tier, seed):
         trusted_base=["z3 5.1 / cvc5 1.0 / z3 4.8.12", "pyvc symbolic executor (this repository, policed by canaries)",
                       "assumed library contracts listed under assumptions"],
         functions_under_contract=fn_table,
-        obligation_table=[dict(name=ob.name, kind=ob.kind, verdict=r["verdict"], backend=r["backend"],
-                               seconds=round(r["seconds"], 3)) for ob, r in zip(ctx.obls, results)],
+        obligation_summary=obligation_summary(ctx.obls, results),
+        obligations_not_discharged=[dict(name=ob.name, kind=ob.kind, verdict=r["verdict"], backend=r["backend"],
+                                         seconds=round(r["seconds"], 3)) for ob, r in zip(ctx.obls, results)
+                                    if ob.expect == "unsat" and not r["ok"]][:200],
         backends=backends, solver_time_s=round(solver_time, 2), symexec_time_s=round(t_sym, 2),
         undecided=[ob.name for ob, r in failed if r["verdict"] == "unknown"],
         refuted=[ob.name for ob, r in failed if r["verdict"] == "sat"],
